@@ -10,7 +10,8 @@ from harness import core
 from harness.checks import lifelib as L
 
 C09_KINDS = ['plain', 'body', 'form', 'raise', 'nf', 'm405', 'crash', 'json404', 'hdrs', 'badpath', 'badchunk', 'oversize',
-             'badchunk_json', 'oversize_json', 'mutq', 'latin', 'badmp_json', 'signed', 'forged', 'stat_s', 'stat_n', 'bigbody', 'rewrite', 'tenant', 'whoami']
+             'badchunk_json', 'oversize_json', 'mutq', 'latin', 'badmp_json', 'signed', 'forged', 'stat_s', 'stat_n', 'bigbody', 'rewrite', 'tenant', 'whoami', 'lazy', 'delc_opts', 'delc_plain',
+             'upload_ct', 'upload_bare', 'crashform']
 C09_CONFIG = {'max_body_size': 1000, 'max_memfile_size': 128}
 
 
@@ -148,7 +149,8 @@ def run_c08(chk):
     chk.exhaustive = True
     # real threads under forced schedules
     traces = []
-    solos = {}
+    # references: each (kind, client) served by a fresh application in an interpreter that has served nothing else
+    solos = L.reference_table(sorted(set(kinds) | {'badchunk_json', 'oversize_json', 'badchunk', 'm405'}), ['A', 'B', 'C'])
 
     def solo(k, n):
         if (k, n) not in solos:
@@ -175,6 +177,8 @@ def run_c08(chk):
     pairs = [(a, b) for a in kinds for b in kinds]
     rng.shuffle(pairs)
     pairs = pairs[:28] if thorough else pairs[:8]
+    # kinds that differ only in what they pass to the same framework call
+    pairs += [('delc_opts', 'delc_plain'), ('delc_plain', 'delc_opts'), ('stat_s', 'stat_n'), ('upload_ct', 'upload_bare')]
     for ka, kb in pairs:
         reqs = [(ka, 'A'), (kb, 'B')]
         na, nb = len(progs[ka]), len(progs[kb])
@@ -217,7 +221,7 @@ def run_c08(chk):
             if n0 is None:
                 _, _, taken0 = L.run_threads([app, app], reqs, [0] * 5000, acc if acc.ok else None, lf)
                 n0 = sum(1 for t in taken0 if t == 0)
-            fine = k in ('rewrite', 'tenant')       # short critical windows (listener dispatch, tenant lookup): sweep every other line
+            fine = k in ('rewrite', 'tenant', 'lazy')       # short critical windows (listener dispatch, tenant lookup): sweep every other line
             for a in range(1, n0 + 1, (1 if fine else 3) if thorough else (2 if fine else max(1, n0 // 36))):
                 execute(reqs, [0] * a + [1] * 5000 + [0] * 5000, line_files=lf, tag='twin')
     judge(chk, 'C08', traces, closure_known=False)
@@ -299,7 +303,7 @@ def run_c09(chk):
 
     def solo(k, n):
         if (k, n) not in solos:
-            solos[(k, n)] = L.solo(k, n, C09_CONFIG)
+            solos[(k, n)] = L.solo(k, n, getattr(app, '_verif_cfg', C09_CONFIG))
         return solos[(k, n)]
     traces = []
 
@@ -324,6 +328,18 @@ def run_c09(chk):
         hs.append([rng.choice(kinds) for _ in range(30)])
     for h in hs:
         execute(h)
+    # the same with debug=True (error pages then carry the exception text and the traceback of THIS request)
+    dbg_cfg = dict(C09_CONFIG, debug=True)
+    dkinds = ['crashform', 'crash', 'nf', 'plain', 'raise']
+    app_main, solos_main = app, solos
+    app = L.make_app(dbg_cfg)
+    app._verif_cfg = dbg_cfg
+    solos = L.reference_table(dkinds, ['R%d%s' % (i, 'x' * (i % 4)) for i in range(4)], dbg_cfg, isolate=4)
+    try:
+        for h in [[a, b] for a in dkinds for b in dkinds] + [[a, b, c] for a in dkinds[:3] for b in dkinds[:3] for c in dkinds[:3]]:
+            execute(h)
+    finally:
+        app, solos = app_main, solos_main
     chk.sample({'kind': 'history', 'requests': hs[5], 'all_equal_to_fresh_app': traces[5]['resp_ok']})
     # SoloResponse for sequential histories compares per request; patch report to index properly
     asis_missing, own_missing, fails = validate(chk, traces, 'C09')
@@ -549,6 +565,37 @@ def run_c10(chk):
             expect = [e_plain, e_bref, e_plain, e_bref]
             reqs, apps = [seq], [a]
             flat = True
+        elif arr == 'custom_errors_map':
+            # an application constructed with its own errors_map (a rarely used option) while others exist
+            from ombott import Ombott as _O, HTTPError as _HE
+            from ombott.request_pkg import errors as _rqe
+            d = ombott.app
+            if not getattr(d, '_verif_routes', False):
+                L.make_app(app=d)
+                d._verif_routes = True
+            e1, e2, e3 = solo('badchunk', 'E1'), solo('badmp_json', 'E2'), solo('oversize', 'E3')
+
+            def construct():
+                _O({'errors_map': {_rqe.RequestError: _HE(422, 'Unprocessable'), _rqe.BodyParsingError: _HE(418, 'teapot')}})
+                return 'constructed'
+            seq = [(lambda: L.serve(a, L.environ_for('badchunk', 'E1'))), construct,
+                   (lambda: L.serve(a, L.environ_for('badchunk', 'E1'))), (lambda: L.serve(b, L.environ_for('badmp_json', 'E2'))),
+                   (lambda: L.serve(d, L.environ_for('badchunk', 'E1'))), (lambda: L.serve(L.make_app(), L.environ_for('oversize', 'E3')))]
+            expect = [e1, 'constructed', e1, e2, e1, e3]
+            reqs, apps = [seq], [a]
+            flat = True
+        elif arr == 'custom404':
+            # a's own 404 handler personalises the error it is given before delegating to the default page
+            def nf_handler(res):
+                res.body = 'application A has nothing at ' + a.request.path
+                return a.default_error_handler(res)
+            a.error(404)(nf_handler)
+            e_b, e_b2 = solo('nf', 'NB'), solo('json404', 'NJ')
+            seq = [(lambda: L.serve(a, L.environ_for('nf', 'NA'))), (lambda: L.serve(b, L.environ_for('nf', 'NB'))),
+                   (lambda: L.serve(a, L.environ_for('nf', 'NA2'))), (lambda: L.serve(b, L.environ_for('json404', 'NJ')))]
+            expect = [None, e_b, None, e_b2]
+            reqs, apps = [seq], [a]
+            flat = True
         elif arr == 'status_table':
             # a answers with its own reason phrase for a code without a registered one; b and the default application use the code
             d = ombott.app
@@ -598,8 +645,8 @@ def run_c10(chk):
             raise core.MachineryError(arr)
         res, tr, taken = L.run_threads(apps, reqs, sched, acc if acc.ok else None)
         ok = []
-        if arr in ('alternate', 'create_between', 'listener', 'status_table', 'shared_environ'):
-            ok = [res[0][i] == expect[i] for i in range(len(expect))]
+        if arr in ('alternate', 'create_between', 'listener', 'status_table', 'shared_environ', 'custom_errors_map', 'custom404'):
+            ok = [expect[i] is None or res[0][i] == expect[i] for i in range(len(expect))]
         elif arr == 'lazy_drain':
             got_a, got_mid = res[0][0]
             ok = [got_a == solo('latin', 'LZ'), got_mid == solo('plain', 'MID')]
@@ -636,6 +683,8 @@ def run_c10(chk):
     run_arr('status_table', [])      # first: nothing has subscribed / set a custom status anywhere in this process yet
     run_arr('listener', [])
     run_arr('shared_environ', [])
+    run_arr('custom404', [])
+    run_arr('custom_errors_map', [])          # last of the one-shot arrangements: it may change process-wide defaults for good
     for _ in range(40 if thorough else 8):
         run_arr('alternate', [])
         run_arr('create_between', [])
